@@ -337,4 +337,55 @@ theorem convOk_all (o : Opts) (xs : List (Item Keylog.Key)) :
 
 end ConvInv
 
+-- ------------------------------------------------------------------ `-a` does not touch the demultiplexer
+section Meta
+variable (H : Crypto.Prims) (P : Cipher.Prims) (info : Nat → Pipeline.Info)
+
+def optMeta (o : Opts) (b : Bool) : Opts := { o with metadata := b }
+
+/-- the same conversation object created under `-a` set / cleared -/
+def sessMeta (b : Bool) (s : TlsSess Pipeline.Conn) : TlsSess Pipeline.Conn :=
+  { s with st := Props.C01Pipeline.setMeta s.st b }
+
+theorem classify_optMeta {κ : Type} (o : Opts) (b : Bool) (it : Item κ) : classify (optMeta o b) it = classify o it := rfl
+
+theorem tcpView_optMeta {κ : Type} (o : Opts) (b : Bool) (xs : List (Item κ)) : tcpView (optMeta o b) xs = tcpView o xs := rfl
+
+theorem tlsHandle_optMeta (o : Opts) (b : Bool) (ss : List (TlsSess Pipeline.Conn)) (p : Pkt) :
+    tlsHandle (Pipeline.tlsMachine H P info) (optMeta o b) (ss.map (sessMeta b)) p
+      = (tlsHandle (Pipeline.tlsMachine H P info) o ss p).map (sessMeta b) := by
+  induction ss with
+  | nil =>
+    simp only [tlsHandle, List.map_nil]
+    have : candidate (optMeta o b) p = candidate o p := rfl
+    rw [this]
+    split <;> rfl
+  | cons s rest ih =>
+    simp only [tlsHandle, List.map_cons]
+    have : (sessMeta b s).matches p = s.matches p := rfl
+    rw [this]
+    split
+    · rfl
+    · rw [ih]; rfl
+
+/-- the demultiplexer does not read `-a`: the conversations of the two runs correspond one to one, in order, and differ
+    only in the stored `exp_meta` -/
+theorem tlsConvs_optMeta (o : Opts) (b : Bool) (xs : List (Item Keylog.Key)) :
+    tlsConvs H P info (optMeta o b) xs = (tlsConvs H P info o xs).map (sessMeta b) := by
+  unfold tlsConvs
+  rw [tcpView_optMeta]
+  generalize tcpView o xs = pkts
+  have : ∀ (ss : List (TlsSess Pipeline.Conn)),
+      tlsRun (Pipeline.tlsMachine H P info) (optMeta o b) (ss.map (sessMeta b)) pkts
+        = (tlsRun (Pipeline.tlsMachine H P info) o ss pkts).map (sessMeta b) := by
+    induction pkts with
+    | nil => intro ss; rfl
+    | cons p ps ih =>
+      intro ss
+      simp only [tlsRun, List.foldl_cons] at ih ⊢
+      rw [tlsHandle_optMeta, ih]
+  exact this []
+
+end Meta
+
 end TLX.Lemmas.ExportProps
